@@ -66,50 +66,40 @@ class ExprMixin:
         return [(st, Exc(NameError, node.id))]
 
     def ex_JoinedStr(self, node, st):
-        # f-string: evaluate the pieces for their side effects/exceptions where they are simple names/attrs,
-        # result text is opaque unless every piece is a string value.
-        parts = []
-        simple = True
+        # f-string: pieces are evaluated (a failing sub-expression such as an unbound name is real behaviour and is
+        # kept); formatting an object calls __repr__/__str__ whose text is opaque.
         cur = [(st, [])]
+        raised = []
         for v in node.values:
             if isinstance(v, ast.Constant):
                 cur = [(s, acc + [v.value]) for s, acc in cur]
-            else:
-                inner = v.value
-                nxt = []
-                for s, acc in cur:
-                    if v.conversion != -1 or v.format_spec is not None:
-                        nxt.append((s, acc + [Opaque("fmt")]))
-                        continue
-                    try:
-                        rs = self.ev(inner, s.fork())
-                    except Unsupported:
-                        nxt.append((s, acc + [Opaque("fmt")]))
-                        continue
-                    # formatting an object calls __repr__/__str__: opaque text; but a failing sub-expression
-                    # (NameError, AttributeError) is a real behaviour of the code and is kept.
-                    for s2, x in rs:
-                        if isinstance(x, Exc):
-                            nxt.append((s2, x))
-                        else:
-                            nxt.append((s2, acc + [x]))
-                cur = nxt
-        out = []
+                continue
+            nxt = []
+            for s, acc in cur:
+                if v.conversion != -1 or v.format_spec is not None:
+                    nxt.append((s, acc + [Opaque("fmt")]))
+                    continue
+                try:
+                    rs = self.ev(v.value, s.fork())
+                except Unsupported:
+                    nxt.append((s, acc + [Opaque("fmt")]))
+                    continue
+                for s2, x in rs:
+                    if isinstance(x, Exc):
+                        raised.append((s2, x))
+                    else:
+                        nxt.append((s2, acc + [x]))
+            cur = nxt
+        out = list(raised)
         for s, acc in cur:
-            if isinstance(acc, Exc):
-                out.append((s, acc))
-            elif all(isinstance(x, (str, SStr)) for x in acc):
+            if all(isinstance(x, (str, SStr)) for x in acc):
                 r = ""
                 for x in acc:
                     r = r + x
                 out.append((s, r))
             else:
                 out.append((s, Opaque("f-string")))
-        # exceptions appended as (s, Exc) inside cur
-        fixed = []
-        for s, acc in out:
-            fixed.append((s, acc))
-        return fixed
+        return out
 
     def ex_Tuple(self, node, st):
         if any(isinstance(e, ast.Starred) for e in node.elts):
@@ -324,6 +314,12 @@ class ExprMixin:
         return [(st, r)]
 
     def identical(self, st, a, b):
+        if isinstance(a, SLoc) and isinstance(b, SLoc):
+            if a.field != b.field:
+                return False
+            return SBool(a.owner == b.owner)
+        if isinstance(a, SLoc) or isinstance(b, SLoc):
+            return False
         if isinstance(a, SRef) and isinstance(b, SRef):
             return SBool(a.z == b.z)
         if isinstance(a, SRef) or isinstance(b, SRef):
@@ -784,6 +780,8 @@ class ExprMixin:
         if isinstance(obj, SLoc):
             c = st.heap.get(obj.field, obj.owner)
             if obj.kind == "map[str,ref]":
+                if not isinstance(key, (str, SStr)):
+                    raise Unsupported(f"map store under non-string key {key!r}", node)
                 if not isinstance(val, SRef):
                     raise Unsupported(f"map store of {val!r}", node)
                 st.heap.put(obj.field, obj.owner, z3.Store(c, zstr(key), val.z))
